@@ -58,6 +58,17 @@ type World struct {
 	// Split is the index of a participant whose two addresses are different keys (-1: none): no
 	// signature can be valid for it, every AddSig for that index must fail and change nothing.
 	Split int
+	// WellFormedOnly: forced updates keep to states whose dimensions fit the parameters (the
+	// persistence properties are stated for such histories; an ill-dimensioned forced state
+	// cannot be written back by design of the store format).
+	WellFormedOnly bool
+}
+
+// NewWellFormedWorld is NewWorld with WellFormedOnly set.
+func NewWellFormedWorld(r *rand.Rand, n, idx int, app gen.AppKind, assets int) *World {
+	w := NewWorld(r, n, idx, app, assets)
+	w.WellFormedOnly = true
+	return w
 }
 
 // NewWorld creates a world with n participants.
@@ -383,6 +394,9 @@ func (e *Exec) Apply(op Op) (ret *Step) {
 			ret = &Step{Op: op, Applicable: false}
 		}
 	}()
+	if e.W.WellFormedOnly && op.Kind == OpForceUpdate && op.Class == UpdNarrow {
+		return &Step{Op: op, Applicable: false}
+	}
 	src := e.D.Source()
 	st := &Step{Op: op, Applicable: true, ModelBefore: e.M}
 	st.ModelBefore.StagedSig = append([]bool(nil), e.M.StagedSig...)
